@@ -158,6 +158,7 @@ def run(R):
     import c01
     c01.seen_scope(R, "C02-R13")
     r14(R)
+    r15(R)
 
 
 def r1(R):
@@ -869,3 +870,48 @@ def r14(R):
                  detail=None if built else "the plan of the node's input is offered as a plan of the node: with fresh statistics `GRAPH ?h { .. }` inside another "
                  "GRAPH is executed without its wrapper and ?h is pinned to the outer graph")
     R.floor("C02-R14", "candidates offered by the optimizer", n, 10)
+
+
+def r15(R):
+    """positions into the pattern list stay valid"""
+    prog = R.prog
+    R.rule("C02-R15", "positions are not outlived by a re-ordering: build_star_join_from_patterns records which patterns its stars use as *positions* in "
+                      "the pattern list and appends the remaining ones by position afterwards. Between recording a position and the last use of one, "
+                      "the list is not re-ordered or shortened (`sort*`, `reverse`, `swap`, `retain`, `remove`, `dedup*`, `rotate*`, `drain`, `truncate`). "
+                      "A sort in between makes a star pattern appear twice and drops a pattern outside the stars: the plan answers a weaker query, and "
+                      "whether the sort moves anything depends on the statistics-driven order")
+    b = R.body("C02-R15", "Streamertail::build_star_join_from_patterns", crate="kolibrie")
+    if b is None:
+        return
+    R.saw(b)
+    REORDER = ("sort", "sort_by", "sort_by_key", "sort_unstable", "sort_unstable_by", "sort_unstable_by_key", "sort_by_cached_key", "reverse", "swap", "retain", "remove",
+               "swap_remove", "dedup", "dedup_by", "dedup_by_key", "rotate_left", "rotate_right", "drain", "truncate", "insert")
+    fam = prog.family(b.key)
+    idx_sets = [l for l in range(len(b.locals)) if "usize" in b.local_ty(l) and ("HashSet<usize" in b.local_ty(l) or "Vec<usize" in b.local_ty(l) or "BTreeSet<usize" in b.local_ty(l))
+                and b.local_name(l)]
+    recs = [c for c in b.calls() if c.name() in ("insert", "push", "extend") and c.args and b.alias_root(c.args[0]) in idx_sets]
+    R.ob("C02-R15", "positions", "the function records positions of patterns (index collections: %s, recording calls: %d)" % ([b.local_name(l) for l in idx_sets], len(recs)),
+         bool(idx_sets) and bool(recs), where=b.where())
+    uses = [c for c in b.calls() if c.name() in ("contains", "get", "index") and c.args and b.alias_root(c.args[0]) in idx_sets]
+    bad = []
+    for c in b.calls():
+        if c.name() in REORDER and c.args and F.op_place(c.args[0]):
+            ty = b.local_ty(F.op_place(c.args[0])["l"])
+            r0 = b.alias_root(c.args[0])
+            for _ in range(4):
+                d0 = b.single_def(r0) if r0 is not None else None
+                if d0 and d0[0] == "call" and d0[2].name() in ("deref_mut", "deref", "as_mut_slice", "as_mut", "borrow_mut", "as_slice") and d0[2].args:
+                    r0 = b.alias_root(d0[2].args[0])
+                else:
+                    break
+            if r0 in idx_sets or "Vec<" not in b.local_ty(r0 if r0 is not None else 0):
+                continue
+            if "usize" in b.local_ty(r0) and "(" not in b.local_ty(r0):
+                continue
+            after_rec = any(c.bb in b.reach_from(b.succ(r.bb)) or c.bb == r.bb for r in recs)
+            before_use = any(u.bb in b.reach_from(b.succ(c.bb)) for u in uses)
+            if after_rec and before_use and b.local_name(r0) and ("pattern" in (b.local_name(r0) or "")):
+                bad.append(c)
+    R.ob("C02-R15", "stable", "the pattern list is not re-ordered between recording positions and using them (re-ordering calls in between: %s)" % sorted({c.name() for c in bad}),
+         not bad, where=b.where(bad[0].ln if bad else None),
+         detail=None if not bad else "a star query with a two-constant pattern outside the star returns rows that pattern excludes")
